@@ -125,10 +125,11 @@ PROPS = {
     'C18': dict(
         level='proof', units=[('V', 'V-ENC', 'v_enc'), ('V', 'V-ENCNEW', 'v_encnew')],
         explanation='repair_packets(start, n) extracted verbatim: for all K <= 56403, start, n with K + start + n <= 2^24: exactly n packets, packet i == repair_packet_spec(encoder, start + i) '
-                    '(block number, ESI K+start+i, payload Enc over ISI K\'+start+i); window==singles, overlap agreement, distinct IDs, every ESI < 2^24 producible are lemmas over that contract',
+                    '(block number, ESI K+start+i, payload Enc over ISI K\'+start+i); window==singles, overlap agreement, distinct IDs, every ESI < 2^24 producible are lemmas over that contract; '
+                    'get_encoded_packets(r): block by block in order, the K source packets then repair_packets(0, r) (positions given by block_at); Encoder::new numbers block b with b',
         assumptions=['intermediate_tuple / enc_into / table look-ups are external_body here: deterministic functions of their arguments (their values are decided under C15/C04)',
                      'Verus/Z3 sound'],
-        not_decided=['ordering of Encoder::get_encoded_packets and source_packets (iterator chains; bounded Kani unit K-PKTS planned)', 'plan interchangeability rests on generate() being deterministic (C17 assumption)']),
+        not_decided=['source_packets itself (iterator map/collect): external with an assumed contract (K packets, ESI i, source symbol i); the bounded Kani harness for it did not finish', 'plan interchangeability rests on generate() being deterministic (C17 assumption)']),
     'C01': dict(
         level='proof', units=[('V', 'V-DEC', 'v_dec'), ('V', 'V-UNPACK', 'v_unpack'), ('V', 'V-BLOCKS', 'v_blocks'), ('V', 'V-ENCNEW', 'v_encnew')],
         explanation='everything around the solver, for all inputs: the block decoder state is an exact record of the distinct packets received (INV); its answer is answer_spec(state): None below K distinct symbols, '
